@@ -67,6 +67,12 @@ def observe(payload, kind):
             msg = RTCMMessage(payload=payload, labelmsm=2)
         elif kind == "parse":
             msg = RTCMReader.parse(pinned.frame(payload))
+        elif kind == "serialize":
+            # construct and frame: the observation is the frame itself (and its checksum round trip)
+            msg = RTCMMessage(payload=payload)
+            frame = bytes(msg.serialize())
+            back = RTCMReader.parse(frame)
+            return ("ser", frame, bytes(back.payload), bytes(msg.serialize()))
         elif kind == "reader-after-filler":
             # the same reader has first met legal frames that carry no message (zero-length
             # filler, one-byte payload) and foreign traffic
@@ -461,6 +467,8 @@ def thread_pairs(tier):
         ("trunc1006|1005", bad, p1005),
         ("1071|1121", m1, m2),
         ("1059|1065", n1, n2),
+        # framing (serialize + checksum + parse back) of two short messages of different lengths
+        ("ser(3B)|ser(5B)", ("serialize", b"\xfa\x00\x5a"), ("serialize", b"\xfa\x70\x01\x02\xd3")),
     ]
     if tier == "thorough":
         out += [("1230|4076_201", b("1230", {"DF422_1": 1, "DF422_3": 1}),
